@@ -43,7 +43,8 @@ class TopocentricFrame(frames.Frame):
 
         from ..propagators.listeners import stations_listeners, Listener
 
-        listeners = kwargs.setdefault("listeners", [])
+        # work on a copy: the list given by the caller is not to be extended
+        listeners = kwargs["listeners"] = list(kwargs.get("listeners", []))
         events = kwargs.pop("events", None)
         event_classes = tuple()
 
